@@ -182,7 +182,12 @@ CHECKS = {
              "one use per public operation inside a constant expression, judged under all six configurations and required to be accepted or "
              "refused alike; the table is tied to the API by a coverage rule (the public constexpr members of Quantity / QuantityPoint / "
              "Constant / Zero and the constexpr free functions of namespace au are read from the tree with clang-query; one without an entry, "
-             "or without a stated excuse, fails the check as analysis-broken).",
+             "or without a stated excuse, fails the check as analysis-broken).  Link-level parity across standards: every public static constexpr "
+             "data member is paired with its namespace-scope definition (clang-query inventory over all headers; before C++17 an ODR-use "
+             "needs one), and a C++14 -O0 IR module binding the documented members to references must define every au:: global it "
+             "references.  Name collisions with the growing standard library: every function of namespace au whose name std also declares "
+             "(asked of the compilers) is called under `using namespace std; using namespace au;` with identical and mixed operand types "
+             "and must be accepted under all six configurations (std::clamp arrived in C++17).",
         design_ref="3.20", technique="tree / preprocessor / include-graph / clang-query rules + compile matrix + IR DAG identity between packagings and standards",
         note=TRUST_W + "; tools/bin/make-single-file run as a build step; " + TRUST_I, engine="S+W+I"),
     "C14": dict(
